@@ -3,14 +3,19 @@
 package main
 
 import (
+	"os"
 	"strconv"
 	"strings"
+	"time"
 
 	"verif/harness/hlib"
 )
 
 func main() {
 	run = hlib.Start(PROP)
+	if ms, err := strconv.Atoi(os.Getenv("VERIF_PLAN_TIMEOUT_MS")); err == nil && ms > 0 {
+		planTimeout = time.Duration(ms) * time.Millisecond // debugging aid (minimising a non-returning input)
+	}
 	rnd := hlib.NewRand(run.Seed)
 	if lines := run.ReplayLines(); lines != nil {
 		for _, l := range lines {
